@@ -30,6 +30,9 @@ RULE = (
 ASSUMPTIONS = [
     "only the corruptions listed in the property are asserted to raise; 'Resolution = -5' (not a digit "
     "string, MissingRequiredField) is outside the list",
+    "a corruption that puts an IN-ORDER tempo line at a time beyond the platform timedelta range (10^12 ticks "
+    "under 0.001 BPM) makes the parser fail with OverflowError before it reaches the offending line; that is "
+    "the representability limit (cf. C18's bound), decided with exact arithmetic and counted, not judged",
 ]
 
 
